@@ -60,7 +60,7 @@ def plist_value(rnd, depth=0):
 
 
 def plist_key(rnd):
-    return rnd.choice(("com.example.key", "org.example.glyphOrder", "k", "ключ", "key with space", "a&b", " lead", "trail ", "UPPER", "upper", "x.y.z")) + rnd.choice(("", "", str(rnd.randint(0, 99))))
+    return rnd.choice(("com.example.key", "org.example.glyphOrder", "k", "ключ", "key with space", "a&b", " lead", "trail ", "UPPER", "upper", "x.y.z", "", "0", " ")) + rnd.choice(("", "", str(rnd.randint(0, 99))))
 
 
 def same_plist(a, b):
